@@ -45,9 +45,9 @@ MANIFEST = dict(
     technique="source-to-Gallina translator + Coq proofs over Q and R + implementation correspondence + round-trip oracle",
 )
 
-THEOREMS = ["C23_celsius", "C23_fahrenheit", "C23_julian", "C23_unixtime_int", "C23_unixtime_aligned",
+THEOREMS = ["C23_celsius", "C23_fahrenheit", "C23_temperature_aliases", "C23_julian", "C23_unixtime_int", "C23_unixtime_aligned",
             "C23_coth_acoth", "C23_acoth_coth", "C23_cot_acot", "C23_sech_asech", "C23_csch_acsch",
-            "C23_sec_arcsec", "C23_csc_acsc", "C23_sqrt_sqr", "C23_cbrt_cube", "C23_mixed_sum", "C23_mixed_whole", "C23_unit_list"]
+            "C23_sec_arcsec", "C23_csc_acsc", "C23_sqrt_sqr", "C23_cbrt_cube", "C23_mixed_sum", "C23_mixed_whole", "C23_mixed_positive", "C23_unit_list", "C23_reverse"]
 ALLOWED_AXIOMS = ["ClassicalDedekindReals.sig_forall_dec", "ClassicalDedekindReals.sig_not_dec",
                   "FunctionalExtensionality.functional_extensionality_dep", "Classical_Prop.classic"]
 # common.print_assumptions reads the header line "Axioms:" as a name and misses names whose type starts on the
@@ -58,7 +58,8 @@ MODS = os.path.join(common.REPO, "numbat", "modules")
 # module, wanted definitions (in source order), target
 Q_SOURCES = [
     ("physics/temperature_conversion.nbt",
-     ["_offset_celsius", "from_celsius", "°C", "_offset_fahrenheit", "_scale_fahrenheit", "from_fahrenheit", "°F"]),
+     ["_offset_celsius", "from_celsius", "°C", "celsius", "degree_celsius",
+      "_offset_fahrenheit", "_scale_fahrenheit", "from_fahrenheit", "°F", "fahrenheit", "degree_fahrenheit"]),
     ("datetime/unixtime.nbt",
      ["unix_s", "unix_ms", "unix_µs", "unixtime", "unixtime_s", "unixtime_ms", "unixtime_µs",
       "from_unixtime", "from_unixtime_s", "from_unixtime_ms", "from_unixtime_µs"]),
@@ -486,6 +487,9 @@ PAIRS = [
     ("fahrenheit", "°F(from_fahrenheit({x}))", (-459.0, 5000.0), (1e-9, 1e-9)),
     ("fahrenheit-rev", "from_fahrenheit(°F({x} K)) / K", (0.0, 5000.0), (1e-9, 1e-9)),
     ("celsius-syntax", "({x} °C) -> °C", (-273.0, 5000.0), (1e-9, 1e-9)),
+    ("celsius-alias", "degree_celsius(from_celsius({x})) + 0 × celsius(from_celsius({x}))", (-273.0, 5000.0), (1e-9, 1e-9)),
+    ("fahrenheit-alias", "degree_fahrenheit(from_fahrenheit({x})) + 0 × fahrenheit(from_fahrenheit({x}))", (-459.0, 5000.0), (1e-9, 1e-9)),
+    ("reverse∘reverse", "sum(reverse(reverse([{x}, 1, 2]))) - 3 + 0 × head(reverse(reverse([{x}, 7])))", (-1e6, 1e6), (1e-12, 1e-9)),
     ("fahrenheit-syntax", "({x} °F) -> °F", (-459.0, 5000.0), (1e-9, 1e-9)),
     ("sin/asin", "asin(sin({x}))", (-1.5, 1.5), (1e-9, 1e-9)),
     ("asin/sin", "sin(asin({x}))", (-1.0, 1.0), (1e-9, 1e-12)),
